@@ -34,6 +34,7 @@ fn main() {
             Some("vm") => props::c11::child_main(&args[3..]),
             Some("stf") => props::c09::child_main(&args[3..]),
             Some("c03") => props::c03::child_main(&args[3..]),
+            Some("c10exec") => props::c10::child_main(&args[3..]),
             _ => std::process::exit(2),
         }
         return;
